@@ -526,6 +526,35 @@ type batchImpl struct {
 	addFn    *ssa.Function
 	splitFn  *ssa.Function
 	exportFn *ssa.Function
+	maxP     *ssa.Parameter // the max-size parameter of splitFn
+}
+
+// pureDelegate: fn does nothing but return the results of one call of a package function.
+func pureDelegate(fn *ssa.Function) (*ssa.Function, *ssa.Call) {
+	var call *ssa.Call
+	n := 0
+	core.EachInstr(fn, func(i ssa.Instruction) {
+		if cl, ok := i.(*ssa.Call); ok {
+			n++
+			call = cl
+		}
+	})
+	if n != 1 || call == nil {
+		return nil, nil
+	}
+	h := call.Call.StaticCallee()
+	if h == nil || h.Blocks == nil || core.FnPkgPath(h) != core.FnPkgPath(fn) {
+		return nil, nil
+	}
+	for _, r := range core.Returns(fn) {
+		for _, res := range r.Results {
+			ex, ok := res.(*ssa.Extract)
+			if res != ssa.Value(call) && !(ok && ex.Tuple == ssa.Value(call)) {
+				return nil, nil
+			}
+		}
+	}
+	return h, call
 }
 
 func (a *cbpAnchors) impls() []*batchImpl {
@@ -536,6 +565,25 @@ func (a *cbpAnchors) impls() []*batchImpl {
 		bi.addFn = a.implMethod(t, a.mAdd)
 		bi.splitFn = a.implMethod(t, a.mSplit)
 		bi.exportFn = a.implMethod(t, a.mExport)
+		if bi.splitFn != nil && len(bi.splitFn.Params) >= 3 {
+			bi.maxP = bi.splitFn.Params[2]
+			// the method only delegates (`return takeRequest(max, &b.count, &b.data, split, newEmpty)`): the body
+			// that is analysed is the helper's, its parameters standing for the arguments of this one call
+			if h, hc := pureDelegate(bi.splitFn); h != nil {
+				var mp *ssa.Parameter
+				for k, pr := range h.Params {
+					if k < len(hc.Call.Args) {
+						core.BindParam(pr, hc.Call.Args[k])
+						if core.StripConv(hc.Call.Args[k]) == ssa.Value(bi.maxP) {
+							mp = pr
+						}
+					}
+				}
+				if mp != nil {
+					bi.splitFn, bi.maxP = h, mp
+				}
+			}
+		}
 		if bi.countFn != nil {
 			for _, r := range core.Returns(bi.countFn) {
 				if fa := core.LoadedField(r.Results[0]); fa != nil {
@@ -573,6 +621,12 @@ func storesTo(ins ssa.Instruction, f *types.Var) (*ssa.Store, bool) {
 		return nil, false
 	}
 	fa, ok := st.Addr.(*ssa.FieldAddr)
+	if !ok {
+		// through a pointer parameter bound to the field's address
+		if prm, isP := st.Addr.(*ssa.Parameter); isP {
+			fa, ok = core.ResolveParam(prm).(*ssa.FieldAddr)
+		}
+	}
 	if !ok || core.FieldVar(fa) != f {
 		return nil, false
 	}
@@ -655,17 +709,21 @@ func c05_8(c *core.Ctx, p *core.Prog) {
 	for _, bi := range a.impls() {
 		fn := bi.splitFn
 		key := "impl=" + bi.typ.Obj().Name()
-		if fn == nil || bi.counter == nil || bi.data == nil || len(fn.Params) < 3 {
+		if fn == nil || bi.counter == nil || bi.data == nil || bi.maxP == nil {
 			c.Undecided(key, "?", "", "cannot resolve split method of "+bi.typ.Obj().Name())
 			continue
 		}
 		pos := p.Pos(fn.Pos())
-		maxP := fn.Params[2]
+		maxP := bi.maxP
 		// the splitter call: static same-package call taking (int, T) returning T
 		var split *ssa.Call
 		core.EachInstr(fn, func(i ssa.Instruction) {
 			if cl, ok := i.(*ssa.Call); ok {
-				if f := cl.Call.StaticCallee(); f != nil && core.FnPkgPath(f) == core.CBPPath && len(cl.Call.Args) == 2 && types.Identical(cl.Call.Args[1].Type(), bi.data.Type()) {
+				f := cl.Call.StaticCallee()
+				if f == nil {
+					f = core.BoundCallee(cl)
+				}
+				if f != nil && core.FnPkgPath(f) == core.CBPPath && len(cl.Call.Args) == 2 && types.Identical(cl.Call.Args[1].Type(), bi.data.Type()) {
 					split = cl
 				}
 			}
